@@ -223,6 +223,57 @@ fn spin(n: u16) {
     }
 }
 
+/// sequential reference results come from one long-lived instance, one caller at a time
+static REF_LOCK: std::sync::Mutex<()> = std::sync::Mutex::new(());
+
+fn reference(sh: &Shared, c: &RCall) -> Vec<u8> {
+    let _g = REF_LOCK.lock().unwrap_or_else(|e| e.into_inner());
+    exec(&sh.rln, &sh.msgs, c)
+}
+
+/// burst: every thread repeats its one call `reps` times against the expected result; returns per
+/// thread (mismatches, first differing result)
+fn run_burst(r: &RLN, m: &Msgs, calls: &[RCall], want: &[Vec<u8>], reps: &[u32], limit: Duration) -> Vec<(u32, Option<Vec<u8>>)> {
+    let n = calls.len();
+    let barrier = Arc::new(Barrier::new(n));
+    let (tx, rx) = std::sync::mpsc::channel::<(usize, u32, Option<Vec<u8>>)>();
+    let mut results: Vec<Option<(u32, Option<Vec<u8>>)>> = vec![None; n];
+    let deadline = Instant::now() + limit;
+    std::thread::scope(|s| {
+        for t in 0..n {
+            let tx = tx.clone();
+            let barrier = barrier.clone();
+            let (c, w, k) = (&calls[t], &want[t], reps[t]);
+            s.spawn(move || {
+                barrier.wait();
+                let mut bad = 0u32;
+                let mut first = None;
+                for _ in 0..k {
+                    let got = exec(r, m, c);
+                    if &got != w {
+                        bad += 1;
+                        if first.is_none() {
+                            first = Some(got);
+                        }
+                    }
+                }
+                let _ = tx.send((t, bad, first));
+            });
+        }
+        drop(tx);
+        for _ in 0..n {
+            match rx.recv_timeout(deadline.saturating_duration_since(Instant::now())) {
+                Ok((t, bad, first)) => results[t] = Some((bad, first)),
+                Err(_) => {
+                    println!("INCONCLUSIVE property=C18 concurrent callers did not finish within {limit:?} (possible deadlock); not a verdict");
+                    std::process::exit(2);
+                }
+            }
+        }
+    });
+    results.into_iter().map(|r| r.unwrap()).collect()
+}
+
 fn run_threads(r: &RLN, m: &Msgs, lists: &[Vec<(RCall, u16)>], limit: Duration) -> Result<Vec<Vec<Vec<u8>>>, String> {
     let n = lists.len();
     let barrier = Arc::new(Barrier::new(n));
@@ -537,7 +588,11 @@ pub fn lazy_child(path: &str) -> i32 {
 
 #[derive(Clone, Debug, Serialize, Deserialize)]
 pub enum Case {
-    Shared { lists: Vec<Vec<(RCall, u16)>> },
+    /// `fresh`: the shared instance is created for this case and first touched by the concurrent
+    /// callers (nothing warmed up by an earlier sequential call)
+    Shared { lists: Vec<Vec<(RCall, u16)>>, fresh: bool },
+    /// every thread hammers one call (cheap queries many times, verifications a few times)
+    Burst { calls: Vec<RCall>, fresh: bool },
     Lazy { lists: Vec<Vec<(RCall, u16)>> },
     Recreate { api: Api, depth: usize, cfg: StoreCfg, n: u8, writes: Vec<(u16, u8)> },
 }
@@ -589,7 +644,7 @@ impl Property for C18 {
     }
     fn rule(&self) -> String {
         "fixed part: W generated sequential workloads (batch updates on the persistent tree at depth 10/20, 2 witnesses -> full witness, witness-map H vector, Groth16 proof with fixed blinding, proof values; 2 public-API prove+verify; 12-24 read-only calls incl. verdicts on golden and tampered messages), each run in 4 child processes with RAYON_NUM_THREADS = 1, 2, 4, 16: transcripts identical line by line. \
-         generated part: Shared = one shared instance, 2/4/16 threads released by a barrier, each with a generated list of read-only calls (verify*, recover, hash, poseidon_hash, seeded key derivation, unseeded key generation shape, root/leaf/proof/subtree-root/empty-list/metadata queries) and spin/yield jitter, every result equal to the same call made sequentially beforehand; Lazy = the same in a fresh child process where every thread first builds its own instance (concurrent first touch of the lazily initialised globals); Recreate = persistent instance dropped and re-created n times at once (trait / RLN API, storage configurations), each re-creation must return Ok with the persisted state within 60 s (else exit 2). \
+         generated part: Shared = one shared instance (the long-lived one, or one created for the case and first touched by the concurrent callers), 2/4/16 threads released by a barrier, each with a generated list of read-only calls (verify*, recover, hash, poseidon_hash, seeded key derivation, unseeded key generation shape, root/leaf/proof/subtree-root/empty-list/metadata queries) and spin/yield jitter, every result equal to the same call made sequentially (one caller at a time, on the reference instance); Burst = 2/4/8/16 threads each repeating one call (membership-path queries 1500x quick / 6000x thorough, verifications a few times) against its sequential result; Lazy = the same in a fresh child process where every thread first builds its own instance (concurrent first touch of the lazily initialised globals); Recreate = persistent instance dropped and re-created n times at once (trait / RLN API, storage configurations), each re-creation must return Ok with the persisted state within 60 s (else exit 2). \
          evaluations = compared results. non-trivial = run with >= 4 threads in which >= 2 threads issued the same call kind at the same step, or a Recreate case with >= 10 re-creations; distinct by case content. Schedules are sampled, not enumerated.".into()
     }
     fn assumptions(&self) -> Vec<String> {
@@ -645,7 +700,10 @@ impl Property for C18 {
         )
             .prop_map(|(api, depth, cfg, n, writes)| Case::Recreate { api, depth, cfg, n, writes });
         prop_oneof![
-            8 => lists(8).prop_map(|lists| Case::Shared { lists }),
+            8 => (lists(8), any::<bool>()).prop_map(|(lists, fresh)| Case::Shared { lists, fresh }),
+            3 => (prop_oneof![Just(2usize), Just(4usize), Just(8usize), Just(16usize)], any::<bool>())
+                .prop_flat_map(|(n, fresh)| (proptest::collection::vec(prop_oneof![3 => any::<u32>().prop_map(RCall::GetProof), 1 => rcall()], n..=n), Just(fresh)))
+                .prop_map(|(calls, fresh)| Case::Burst { calls, fresh }),
             1 => lists(5).prop_map(|lists| Case::Lazy { lists }),
             3 => rec,
         ]
@@ -661,11 +719,57 @@ impl Property for C18 {
             }
         };
         match case {
-            Case::Shared { lists } => {
-                o.label(format!("shared/{}-threads", lists.len()));
-                // sequential reference, computed on this thread beforehand
-                let want: Vec<Vec<Vec<u8>>> = lists.iter().map(|l| l.iter().map(|(c, _)| exec(&sh.rln, &sh.msgs, c)).collect()).collect();
-                let got = run_threads(&sh.rln, &sh.msgs, lists, Duration::from_secs(120)).unwrap();
+            Case::Burst { calls, fresh } => {
+                o.label(format!("burst/{}-threads{}", calls.len(), if *fresh { "/fresh-instance" } else { "" }));
+                let want: Vec<Vec<u8>> = calls.iter().map(|c| reference(sh, c)).collect();
+                let reps: Vec<u32> = calls.iter().map(|c| match c {
+                    RCall::Verify(..) | RCall::VerifyRln(..) | RCall::VerifyRoots(..) => ctx.tier.pick(6, 20),
+                    RCall::KeyGen | RCall::SeededKeyGen(_) | RCall::SeededExtKeyGen(_) | RCall::Hash(_) | RCall::Recover(..) | RCall::GetEmpty => ctx.tier.pick(40, 200),
+                    _ => ctx.tier.pick(1500, 6000),
+                }).collect();
+                let owned;
+                let inst: &RLN = if *fresh {
+                    owned = match instance_from(&sh.msgs) {
+                        Ok(r) => r,
+                        Err(e) => {
+                            vfail!(o, "cannot build a fresh instance: {e}");
+                            return o;
+                        }
+                    };
+                    &owned
+                } else {
+                    &sh.rln
+                };
+                let res = run_burst(inst, &sh.msgs, calls, &want, &reps, Duration::from_secs(300));
+                for (t, (bad, first)) in res.iter().enumerate() {
+                    o.evals += reps[t] as u64;
+                    o.count("burst_calls", reps[t] as u64);
+                    if *bad > 0 {
+                        let f = first.clone().unwrap_or_default();
+                        vfail!(o, "{} threads each repeating one call: thread {t} {:?}: {bad} of {} results differ from the sequential result {}; first differing result {}", calls.len(), calls[t], reps[t], hexs(&want[t]), if f.first() == Some(&2) { String::from_utf8_lossy(&f[1..]).to_string() } else { hexs(&f) });
+                        return o;
+                    }
+                }
+                o.nontrivial = calls.len() >= 4;
+            }
+            Case::Shared { lists, fresh } => {
+                o.label(format!("shared/{}-threads{}", lists.len(), if *fresh { "/fresh-instance" } else { "" }));
+                // sequential reference: the same calls one at a time on the long-lived reference instance
+                let want: Vec<Vec<Vec<u8>>> = lists.iter().map(|l| l.iter().map(|(c, _)| reference(sh, c)).collect()).collect();
+                let owned;
+                let inst: &RLN = if *fresh {
+                    owned = match instance_from(&sh.msgs) {
+                        Ok(r) => r,
+                        Err(e) => {
+                            vfail!(o, "cannot build a fresh instance: {e}");
+                            return o;
+                        }
+                    };
+                    &owned
+                } else {
+                    &sh.rln
+                };
+                let got = run_threads(inst, &sh.msgs, lists, Duration::from_secs(120)).unwrap();
                 for (t, (g, w)) in got.iter().zip(want.iter()).enumerate() {
                     for (k, (a, b)) in g.iter().zip(w.iter()).enumerate() {
                         o.evals += 1;
@@ -718,7 +822,7 @@ impl Property for C18 {
                             let k: usize = it.next().unwrap().parse().unwrap();
                             let hexv = it.next().unwrap_or("");
                             let c = &lists[t][k].0;
-                            let want = exec(&sh.rln, &sh.msgs, c);
+                            let want = reference(sh, c);
                             let wanth: String = want.iter().map(|x| format!("{x:02x}")).collect();
                             o.evals += 1;
                             if hexv != wanth {
@@ -797,7 +901,7 @@ impl Property for C18 {
     }
     fn sample_view(&self, case: &Case) -> serde_json::Value {
         match case {
-            Case::Shared { lists } => serde_json::json!({"shared_threads": lists.len(), "calls_per_thread": lists.iter().map(|l| l.iter().map(|(c, j)| format!("{}~{j}", c.kind())).collect::<Vec<_>>()).collect::<Vec<_>>()}),
+            Case::Shared { lists, fresh } => serde_json::json!({"shared_threads": lists.len(), "fresh_instance": fresh, "calls_per_thread": lists.iter().map(|l| l.iter().map(|(c, j)| format!("{}~{j}", c.kind())).collect::<Vec<_>>()).collect::<Vec<_>>()}),
             Case::Lazy { lists } => serde_json::json!({"fresh_process_threads": lists.len(), "calls_per_thread": lists.iter().map(|l| l.iter().map(|(c, _)| c.kind()).collect::<Vec<_>>()).collect::<Vec<_>>()}),
             other => serde_json::to_value(other).unwrap_or_default(),
         }
